@@ -1,10 +1,13 @@
 import Amshan.Lemmas.P1Readout
 /-
   Lemmas for Props/C04General: `is_valid` of an ARBITRARY readout object, on raw bytes.
-    * `str.strip()` : canonical decomposition `s = w1 ++ strip s ++ w2`;
+    * `str.strip()` and the C white-space skip of `int()` : canonical decomposition
+      `s = w1 ++ strip s ++ w2` (generic in the white-space set: `stripWith`);
     * `int(text, 16)` : the model `Py.intBase16` accepts exactly the texts of the grammar `IsPyHexInt`
-      (white space, optional sign, optional 0x / 0X prefix with one optional underscore, hex digits
-      with single underscores strictly between digits);
+      (C white space 32, 9..13, optional sign, optional 0x / 0X prefix with one optional underscore, hex
+      digits with single underscores strictly between digits); 0x1C..0x1F are NOT skipped by `int()`;
+    * `int(text.strip(), 16)` (what `expected_checksum` computes): the same grammar with the white space
+      of `str.strip()` (32, 9..13, 0x1C..0x1F) around the number, `IsEndHexInt`;
     * the expected checksum of any readout as a function of the text after '!';
     * the identification line of any readout;
     * `is_valid = True` as the conjunction of its three parts.
@@ -39,44 +42,51 @@ theorem exists_snoc (c : List Nat) (h : c ≠ []) : ∃ u y, c = u ++ [y] := by
     have := congrArg List.reverse hr
     simpa using this
 
-/-- no white space at either end (or empty) -/
-def Trimmed (c : List Nat) : Prop :=
-  (∀ x t, c = x :: t → isStrSpace x = false) ∧ (∀ x u, c = u ++ [x] → isStrSpace x = false)
+/-- `str.strip()` (`strip`) and the C white-space skip of `int()` / `float()` (`stripC`) are the same
+    function of the white-space set -/
+def stripWith (p : Nat → Bool) (s : List Nat) : List Nat := rstripWith p (s.dropWhile p)
 
-theorem trimmed_nil : Trimmed [] := by
+theorem strip_eq_stripWith (s : List Nat) : strip s = stripWith isStrSpace s := rfl
+theorem stripC_eq_stripWith (s : List Nat) : stripC s = stripWith isBytesSpace s := rfl
+
+/-- no white space (of the set `p`) at either end (or empty) -/
+def TrimmedW (p : Nat → Bool) (c : List Nat) : Prop :=
+  (∀ x t, c = x :: t → p x = false) ∧ (∀ x u, c = u ++ [x] → p x = false)
+
+theorem trimmedW_nil (p : Nat → Bool) : TrimmedW p [] := by
   constructor
   · intro x t h; cases h
   · intro x u h
     have := congrArg List.length h
     simp at this
 
-/-- `strip` cuts a run of white space off either end and nothing else -/
-theorem strip_decomp (s : List Nat) : ∃ w1 w2, s = w1 ++ strip s ++ w2 ∧
-    w1.all isStrSpace = true ∧ w2.all isStrSpace = true ∧ Trimmed (strip s) := by
-  have hrest : s.dropWhile isStrSpace = strip s ++ ((s.dropWhile isStrSpace).reverse.takeWhile isStrSpace).reverse := by
-    have := List.takeWhile_append_dropWhile (p := isStrSpace) (l := (s.dropWhile isStrSpace).reverse)
+/-- stripping cuts a run of white space off either end and nothing else -/
+theorem stripWith_decomp (p : Nat → Bool) (s : List Nat) : ∃ w1 w2, s = w1 ++ stripWith p s ++ w2 ∧
+    w1.all p = true ∧ w2.all p = true ∧ TrimmedW p (stripWith p s) := by
+  have hrest : s.dropWhile p = stripWith p s ++ ((s.dropWhile p).reverse.takeWhile p).reverse := by
+    have := List.takeWhile_append_dropWhile (p := p) (l := (s.dropWhile p).reverse)
     have h2 := congrArg List.reverse this
     rw [List.reverse_append, List.reverse_reverse] at h2
-    unfold strip rstripWith
+    unfold stripWith rstripWith
     exact h2.symm
-  refine ⟨s.takeWhile isStrSpace, ((s.dropWhile isStrSpace).reverse.takeWhile isStrSpace).reverse, ?_,
+  refine ⟨s.takeWhile p, ((s.dropWhile p).reverse.takeWhile p).reverse, ?_,
     takeWhile_all _ _, ?_, ?_, ?_⟩
   · rw [List.append_assoc, ← hrest, List.takeWhile_append_dropWhile]
   · rw [List.all_reverse]; exact takeWhile_all _ _
   · intro x t hc
     rw [hc] at hrest
-    exact dropWhile_head_not isStrSpace s x _ hrest
+    exact dropWhile_head_not p s x _ hrest
   · intro x u hc
-    have : (s.dropWhile isStrSpace).reverse.dropWhile isStrSpace = x :: u.reverse := by
-      have h3 : strip s = ((s.dropWhile isStrSpace).reverse.dropWhile isStrSpace).reverse := rfl
+    have : (s.dropWhile p).reverse.dropWhile p = x :: u.reverse := by
+      have h3 : stripWith p s = ((s.dropWhile p).reverse.dropWhile p).reverse := rfl
       rw [h3] at hc
       have := congrArg List.reverse hc
       simpa using this
-    exact dropWhile_head_not isStrSpace _ x _ this
+    exact dropWhile_head_not p _ x _ this
 
-theorem strip_of_decomp (w1 c w2 : List Nat) (h1 : w1.all isStrSpace = true) (h2 : w2.all isStrSpace = true)
-    (hc : Trimmed c) : strip (w1 ++ c ++ w2) = c := by
-  unfold strip
+theorem stripWith_of_decomp (p : Nat → Bool) (w1 c w2 : List Nat) (h1 : w1.all p = true) (h2 : w2.all p = true)
+    (hc : TrimmedW p c) : stripWith p (w1 ++ c ++ w2) = c := by
+  unfold stripWith
   rw [List.append_assoc, dropWhile_append_all _ _ _ h1]
   cases c with
   | nil =>
@@ -84,29 +94,62 @@ theorem strip_of_decomp (w1 c w2 : List Nat) (h1 : w1.all isStrSpace = true) (h2
     rfl
   | cons x t =>
     have hx := hc.1 x t rfl
-    have hd : (x :: t ++ w2).dropWhile isStrSpace = x :: t ++ w2 := by
+    have hd : (x :: t ++ w2).dropWhile p = x :: t ++ w2 := by
       simp [hx]
     rw [hd]
     obtain ⟨u, y, huy⟩ := exists_snoc (x :: t) (by simp)
     have hy := hc.2 y u huy
     rw [huy]
-    exact rstripWith_concat isStrSpace u w2 y hy h2
+    exact rstripWith_concat p u w2 y hy h2
 
-theorem strip_idem (s : List Nat) : strip (strip s) = strip s := by
-  obtain ⟨_, _, _, _, _, ht⟩ := strip_decomp s
-  have := strip_of_decomp [] (strip s) [] rfl rfl ht
+theorem stripWith_idem (p : Nat → Bool) (s : List Nat) : stripWith p (stripWith p s) = stripWith p s := by
+  obtain ⟨_, _, _, _, _, ht⟩ := stripWith_decomp p s
+  have := stripWith_of_decomp p [] (stripWith p s) [] rfl rfl ht
   simpa using this
 
-theorem strip_eq_nil_iff (s : List Nat) : strip s = [] ↔ s.all isStrSpace = true := by
+theorem stripWith_eq_nil_iff (p : Nat → Bool) (s : List Nat) : stripWith p s = [] ↔ s.all p = true := by
   constructor
   · intro h
-    obtain ⟨w1, w2, hs, h1, h2, _⟩ := strip_decomp s
+    obtain ⟨w1, w2, hs, h1, h2, _⟩ := stripWith_decomp p s
     rw [h, List.append_nil] at hs
     rw [hs, List.all_append, h1, h2]
     rfl
   · intro h
-    have := strip_of_decomp s [] [] h rfl trimmed_nil
+    have := stripWith_of_decomp p s [] [] h rfl (trimmedW_nil p)
     simpa using this
+
+/-! #### the two instances -/
+
+/-- no `str.strip()` white space at either end (or empty) -/
+def Trimmed (c : List Nat) : Prop := TrimmedW isStrSpace c
+
+theorem trimmed_nil : Trimmed [] := trimmedW_nil _
+
+/-- `strip` cuts a run of white space off either end and nothing else -/
+theorem strip_decomp (s : List Nat) : ∃ w1 w2, s = w1 ++ strip s ++ w2 ∧
+    w1.all isStrSpace = true ∧ w2.all isStrSpace = true ∧ Trimmed (strip s) :=
+  stripWith_decomp isStrSpace s
+
+theorem strip_of_decomp (w1 c w2 : List Nat) (h1 : w1.all isStrSpace = true) (h2 : w2.all isStrSpace = true)
+    (hc : Trimmed c) : strip (w1 ++ c ++ w2) = c :=
+  stripWith_of_decomp isStrSpace w1 c w2 h1 h2 hc
+
+theorem strip_idem (s : List Nat) : strip (strip s) = strip s := stripWith_idem isStrSpace s
+
+theorem strip_eq_nil_iff (s : List Nat) : strip s = [] ↔ s.all isStrSpace = true :=
+  stripWith_eq_nil_iff isStrSpace s
+
+/-- text without `str.strip()` white space at its ends has no C white space there either -/
+theorem trimmedW_bytes_of_trimmed (c : List Nat) (h : Trimmed c) : TrimmedW isBytesSpace c :=
+  ⟨fun x t hx => not_isBytesSpace_of_not_isStrSpace x (h.1 x t hx),
+   fun x u hx => not_isBytesSpace_of_not_isStrSpace x (h.2 x u hx)⟩
+
+/-- after `str.strip()` the white-space skip of `int()` finds nothing to remove -/
+theorem stripC_strip (s : List Nat) : stripC (strip s) = strip s := by
+  obtain ⟨_, _, _, _, _, ht⟩ := strip_decomp s
+  have := stripWith_of_decomp isBytesSpace [] (strip s) [] rfl rfl (trimmedW_bytes_of_trimmed _ ht)
+  rw [stripC_eq_stripWith]
+  simpa using this
 
 /-! ### `int(text, 16)` -/
 
@@ -120,15 +163,38 @@ inductive HexDigits : List Nat → List Nat → Prop
 /-- value of a digit string, most significant digit first -/
 def hexValue (ds : List Nat) : Nat := ds.foldl (fun a d => a * 16 + d) 0
 
-/-- **the texts `int(text, 16)` accepts, with their value** (CPython's grammar, on ASCII text): white
-    space, an optional sign, an optional `0x` / `0X` prefix which may be followed by ONE underscore,
-    hexadecimal digits with single underscores strictly between them, white space -/
-def IsPyHexInt (t : List Nat) (v : Int) : Prop :=
+/-- the number grammar of `int(text, 16)` between two runs of white space of the set `sp`: an optional
+    sign, an optional `0x` / `0X` prefix which may be followed by ONE underscore, hexadecimal digits
+    with single underscores strictly between them -/
+def IsHexIntWith (sp : Nat → Bool) (t : List Nat) (v : Int) : Prop :=
   ∃ w1 sgn pre body w2 ds, t = w1 ++ sgn ++ pre ++ body ++ w2 ∧
-    w1.all isStrSpace = true ∧ w2.all isStrSpace = true ∧
+    w1.all sp = true ∧ w2.all sp = true ∧
     (sgn = [] ∨ sgn = [43] ∨ sgn = [45]) ∧
     (pre = [] ∨ pre = [48, 120] ∨ pre = [48, 88] ∨ pre = [48, 120, 95] ∨ pre = [48, 88, 95]) ∧
     HexDigits body ds ∧ v = (if sgn = [45] then -(hexValue ds : Int) else (hexValue ds : Int))
+
+/-- **the texts `int(text, 16)` accepts, with their value** (CPython's grammar, on ASCII text): C white
+    space (`Py_ISSPACE`: 32, 9..13 - NOT the separators 0x1C..0x1F, which `str.strip()` removes but
+    `int()` on an all-ASCII `str` does not skip), an optional sign, an optional `0x` / `0X` prefix which
+    may be followed by ONE underscore, hexadecimal digits with single underscores strictly between them,
+    C white space -/
+def IsPyHexInt (t : List Nat) (v : Int) : Prop := IsHexIntWith isBytesSpace t v
+
+/-- **the texts `int(text.strip(), 16)` accepts** - the composite the library applies to the text
+    after '!' (`expected_checksum`: `int(end[1:].strip(), base=16)`): the same grammar, but the white
+    space around the number is that of `str.strip()` (32, 9..13 and 0x1C..0x1F), because it has been
+    removed before `int()` sees the text -/
+def IsEndHexInt (t : List Nat) (v : Int) : Prop := IsHexIntWith isStrSpace t v
+
+/-- whatever `int()` accepts on its own the composite accepts too (C white space is `str.strip()`
+    white space) -/
+theorem isEndHexInt_of_isPyHexInt (t : List Nat) (v : Int) (h : IsPyHexInt t v) : IsEndHexInt t v := by
+  obtain ⟨w1, sgn, pre, body, w2, ds, ht, h1, h2, rest⟩ := h
+  refine ⟨w1, sgn, pre, body, w2, ds, ht, ?_, ?_, rest⟩
+  · rw [List.all_eq_true] at h1 ⊢
+    exact fun x hx => isStrSpace_of_isBytesSpace x (h1 x hx)
+  · rw [List.all_eq_true] at h2 ⊢
+    exact fun x hx => isStrSpace_of_isBytesSpace x (h2 x hx)
 
 theorem hexVal_of_hexDigitVal (c t : Nat) (h : hexDigitVal? c = some t) : hexVal? c = some t := by
   unfold hexDigitVal? Py.isDigit at h
@@ -162,7 +228,7 @@ theorem hexDigits_head (cs ds : List Nat) (h : HexDigits cs ds) :
   | consU c t cs ts hc _ => exact ⟨c, t, 95 :: cs, rfl, hc⟩
 
 theorem hexDigits_last (cs ds : List Nat) (h : HexDigits cs ds) :
-    ∀ x u, cs = u ++ [x] → isStrSpace x = false := by
+    ∀ x u, cs = u ++ [x] → ∃ t, hexVal? x = some t := by
   induction h with
   | one c t hc =>
     intro x u hu
@@ -172,7 +238,7 @@ theorem hexDigits_last (cs ds : List Nat) (h : HexDigits cs ds) :
       | cons a u' =>
         have := congrArg List.length hu
         simp at this
-    rw [this]; exact hexVal_not_space c t hc
+    rw [this]; exact ⟨t, hc⟩
   | cons c t cs ts hc hcs ih =>
     intro x u hu
     cases u with
@@ -255,41 +321,64 @@ theorem hexLoop_some (cs : List Nat) : ∀ (acc : Nat) (pu any : Bool) (n : Nat)
         · exact Or.inr (Or.inl ⟨t :: ds, by rw [hcs]; exact .consU c t cs' ds hv hds, by rw [hn]; rfl⟩)
       · cases h
 
-theorem intBase16_strip (s : List Nat) : intBase16 (strip s) = intBase16 s := by
-  rw [intBase16_eq, intBase16_eq, strip_idem]
+/-- the part of `int(text, 16)` after the white space has been skipped -/
+def intCore16 (s : List Nat) : Except PyExc Int :=
+  match hexDigitsLoop (prefixPart (signPart s).2) 0 false false with
+  | some v => .ok (if (signPart s).1 then -(v : Int) else (v : Int))
+  | none => .error .valueError
 
-/-- `Py.intBase16` accepts the texts of the grammar … -/
-theorem intBase16_of_grammar (t : List Nat) (v : Int) (h : IsPyHexInt t v) : intBase16 t = .ok v := by
+theorem intBase16_core (s : List Nat) : intBase16 s = intCore16 (stripC s) := rfl
+
+/-- `int(text.strip(), 16)`: after `str.strip()` the white-space skip of `int()` removes nothing.
+    (`int(text.strip(), 16) = int(text, 16)` does NOT hold: "1F\x1c" is accepted by the left side only.) -/
+theorem intBase16_strip (s : List Nat) : intBase16 (strip s) = intCore16 (strip s) := by
+  rw [intBase16_core, stripC_strip]
+
+/-- a white-space set that contains no character of the number grammar -/
+def SpOk (sp : Nat → Bool) : Prop :=
+  sp 43 = false ∧ sp 45 = false ∧ sp 48 = false ∧ ∀ c t, hexVal? c = some t → sp c = false
+
+theorem spOk_str : SpOk isStrSpace :=
+  ⟨by decide, by decide, by decide, hexVal_not_space⟩
+
+theorem spOk_bytes : SpOk isBytesSpace :=
+  ⟨by decide, by decide, by decide, fun c t h => not_isBytesSpace_of_not_isStrSpace c (hexVal_not_space c t h)⟩
+
+/-- the number part accepts the texts of the grammar, whatever the white-space set … -/
+theorem intCore16_of_grammar (sp : Nat → Bool) (hsp : SpOk sp) (t : List Nat) (v : Int) (h : IsHexIntWith sp t v) :
+    intCore16 (stripWith sp t) = .ok v := by
   obtain ⟨w1, sgn, pre, body, w2, ds, ht, h1, h2, hsgn, hpre, hbody, hv⟩ := h
   obtain ⟨c0, t0, body', hb0, hc0⟩ := hexDigits_head body ds hbody
   have f0 := hexVal_facts c0 t0 hc0
   -- the core is trimmed
-  have hcore : Trimmed (sgn ++ pre ++ body) := by
+  have hcore : TrimmedW sp (sgn ++ pre ++ body) := by
     constructor
     · intro x tl hx
       rcases hsgn with rfl | rfl | rfl
       · rcases hpre with rfl | rfl | rfl | rfl | rfl
         · simp only [List.nil_append, hb0, List.cons.injEq] at hx
-          rw [← hx.1]; exact f0.2.2.2.2.2
+          rw [← hx.1]; exact hsp.2.2.2 c0 t0 hc0
         all_goals
           simp only [List.nil_append, List.cons_append, List.cons.injEq] at hx
-          rw [← hx.1]; decide
-      all_goals
-        simp only [List.cons_append, List.nil_append, List.cons.injEq] at hx
-        rw [← hx.1]; decide
+          rw [← hx.1]; exact hsp.2.2.1
+      · simp only [List.cons_append, List.nil_append, List.cons.injEq] at hx
+        rw [← hx.1]; exact hsp.1
+      · simp only [List.cons_append, List.nil_append, List.cons.injEq] at hx
+        rw [← hx.1]; exact hsp.2.1
     · intro x u hx
       obtain ⟨ub, yb, hub⟩ := exists_snoc body (by rw [hb0]; simp)
-      have hlast := hexDigits_last body ds hbody yb ub hub
+      obtain ⟨tl, htl⟩ := hexDigits_last body ds hbody yb ub hub
+      have hlast := hsp.2.2.2 yb tl htl
       rw [hub, ← List.append_assoc] at hx
       have := List.append_inj_right' hx (by simp)
       simp only [List.cons.injEq, and_true] at this
       rw [← this]; exact hlast
-  have hs : strip t = sgn ++ pre ++ body := by
+  have hs : stripWith sp t = sgn ++ pre ++ body := by
     rw [ht]
     have : w1 ++ sgn ++ pre ++ body ++ w2 = w1 ++ (sgn ++ pre ++ body) ++ w2 := by
       simp only [List.append_assoc]
     rw [this]
-    exact strip_of_decomp w1 _ w2 h1 h2 hcore
+    exact stripWith_of_decomp sp w1 _ w2 h1 h2 hcore
   -- the prefix part
   have hp : prefixPart (pre ++ body) = body := by
     rcases hpre with rfl | rfl | rfl | rfl | rfl
@@ -335,7 +424,8 @@ theorem intBase16_of_grammar (t : List Nat) (v : Int) (h : IsPyHexInt t v) : int
     · rw [List.nil_append, hb0] at hr
       exact ⟨c0, body', hr.symm, f0.2.1, f0.2.2.1⟩
     all_goals exact ⟨48, _, hr.symm, by decide, by decide⟩
-  rw [intBase16_eq, hs]
+  rw [hs]
+  unfold intCore16
   have hloop := hexLoop_of_digits body ds hbody 0 false false
   rcases hsgn with rfl | rfl | rfl
   · obtain ⟨a, r', hr, ha1, ha2⟩ := hhead _ rfl
@@ -357,20 +447,21 @@ theorem intBase16_of_grammar (t : List Nat) (v : Int) (h : IsPyHexInt t v) : int
     simp [hexValue]
 
 /-- … and only those -/
-theorem grammar_of_intBase16 (t : List Nat) (v : Int) (h : intBase16 t = .ok v) : IsPyHexInt t v := by
-  obtain ⟨w1, w2, hs, h1, h2, _⟩ := strip_decomp t
-  rw [intBase16_eq] at h
+theorem grammar_of_intCore16 (sp : Nat → Bool) (t : List Nat) (v : Int) (h : intCore16 (stripWith sp t) = .ok v) :
+    IsHexIntWith sp t v := by
+  obtain ⟨w1, w2, hs, h1, h2, _⟩ := stripWith_decomp sp t
+  unfold intCore16 at h
   split at h
   · rename_i n hn
     simp only [Except.ok.injEq] at h
     -- the sign
-    have hsign : ∃ sgn r, strip t = sgn ++ r ∧ (sgn = [] ∨ sgn = [43] ∨ sgn = [45]) ∧
-        signPart (strip t) = (decide (sgn = [45]), r) := by
+    have hsign : ∃ sgn r, stripWith sp t = sgn ++ r ∧ (sgn = [] ∨ sgn = [43] ∨ sgn = [45]) ∧
+        signPart (stripWith sp t) = (decide (sgn = [45]), r) := by
       unfold signPart
       split
       · rename_i r heq; exact ⟨[43], r, heq, Or.inr (Or.inl rfl), rfl⟩
       · rename_i r heq; exact ⟨[45], r, heq, Or.inr (Or.inr rfl), rfl⟩
-      · exact ⟨[], strip t, rfl, Or.inl rfl, rfl⟩
+      · exact ⟨[], stripWith sp t, rfl, Or.inl rfl, rfl⟩
     obtain ⟨sgn, r, hr, hsgn, hsp⟩ := hsign
     rw [hsp] at hn h
     simp only at hn h
@@ -409,14 +500,31 @@ theorem grammar_of_intBase16 (t : List Nat) (v : Int) (h : intBase16 t = .ok v) 
     · cases hany
   · cases h
 
+/-- `Py.intBase16` accepts the texts of the grammar … -/
+theorem intBase16_of_grammar (t : List Nat) (v : Int) (h : IsPyHexInt t v) : intBase16 t = .ok v := by
+  rw [intBase16_core, stripC_eq_stripWith]
+  exact intCore16_of_grammar isBytesSpace spOk_bytes t v h
+
+/-- … and only those -/
+theorem grammar_of_intBase16 (t : List Nat) (v : Int) (h : intBase16 t = .ok v) : IsPyHexInt t v := by
+  rw [intBase16_core, stripC_eq_stripWith] at h
+  exact grammar_of_intCore16 isBytesSpace t v h
+
 /-- **`int(text, 16)` succeeds with value `v` exactly on the texts of the grammar** -/
 theorem intBase16_ok_iff (t : List Nat) (v : Int) : intBase16 t = .ok v ↔ IsPyHexInt t v :=
   ⟨grammar_of_intBase16 t v, intBase16_of_grammar t v⟩
 
+/-- **`int(text.strip(), 16)` succeeds with value `v` exactly on the texts of the same grammar with
+    `str.strip()` white space around the number** -/
+theorem intBase16_strip_ok_iff (t : List Nat) (v : Int) : intBase16 (strip t) = .ok v ↔ IsEndHexInt t v := by
+  rw [intBase16_strip, strip_eq_stripWith]
+  exact ⟨grammar_of_intCore16 isStrSpace t v, intCore16_of_grammar isStrSpace spOk_str t v⟩
+
 /-- four hex digits with an optional line end are in the grammar -/
 theorem isPyHexInt_of_checksumText (t : List Nat) (v : Nat) (h : IsChecksumText t v) : IsPyHexInt t (v : Int) := by
   obtain ⟨a, b, c, d, ta, tb, tc, td, term, hte, ha, hb, hc, hd, hv, hterm⟩ := h
-  refine ⟨[], [], [], [a, b, c, d], term, [ta, tb, tc, td], by rw [hte]; rfl, rfl, (term_space term hterm).1,
+  refine ⟨[], [], [], [a, b, c, d], term, [ta, tb, tc, td], by rw [hte]; rfl, rfl,
+    (by rcases hterm with h | h | h <;> subst h <;> decide),
     Or.inl rfl, Or.inl rfl, .cons a ta _ _ ha (.cons b tb _ _ hb (.cons c tc _ _ hc (.one d td hd))), ?_⟩
   rw [hv]
   simp [hexValue]
@@ -428,7 +536,7 @@ theorem expectedChecksum_general (r : Readout) (ab : List Nat) (hd : r.bytes.dro
     r.expectedChecksum =
       if ab.all (· < 128) then
         (if ab.all isStrSpace then .ok none
-         else match intBase16 ab with
+         else match intBase16 (strip ab) with
            | .ok v => .ok (some v)
            | .error e => .error e)
       else .error .unicodeError := by
@@ -462,8 +570,8 @@ theorem expectedChecksum_general (r : Readout) (ab : List Nat) (hd : r.bytes.dro
       rw [if_pos hlen]
       have hdrop : (33 :: (w1 ++ u) ++ [y]).drop 1 = w1 ++ strip ab ++ [] := by
         rw [huy]; simp
-      rw [hdrop, strip_of_decomp w1 (strip ab) [] h1 rfl htr, intBase16_strip]
-      cases intBase16 ab <;> rfl
+      rw [hdrop, strip_of_decomp w1 (strip ab) [] h1 rfl htr]
+      cases intBase16 (strip ab) <;> rfl
   · have hdec : decodeAscii (33 :: ab) = .error .unicodeError := by
       unfold decodeAscii
       simp only [List.all_cons, hasc, Bool.and_false]
